@@ -24,11 +24,12 @@ class Model:
         self.stack = []
         self.named = {}
         self.ctx = []      # snapshots (cur, stack copy)
+        self.made = []     # context managers obtained but not entered yet (their arguments)
 
     def key(self):
         f = lambda mp: (A.rounded(mp[0]), tuple(rf(v) for v in mp[1]))
         return (f(self.cur), tuple(f(s) for s in self.stack), tuple(sorted((k, f(v)) for k, v in self.named.items())),
-                tuple((f(c), tuple(f(s) for s in st)) for c, st in self.ctx))
+                tuple((f(c), tuple(f(s) for s in st)) for c, st in self.ctx), tuple(tuple(a) for a in self.made))
 
 
 TRANSFORM_OPS = {
@@ -83,6 +84,11 @@ def model_step(m, op):
             m.cur = m.named[args[1]]
         m.ctx.append(snap)
         return None
+    if name == "make":
+        m.made.append(list(args))
+        return None
+    if name == "enter-made":
+        return model_step(m, ["enter", m.made.pop()])
     if name in ("exit", "exit!", "exit!k"):
         cur, stack = m.ctx.pop()
         m.cur, m.stack = cur, list(stack)
@@ -91,7 +97,10 @@ def model_step(m, op):
 
 
 class C13System:
-    def __init__(self, transform_ops, nest=2, errors=True, rename=None):
+    deep = True      # search key refined by everything reachable from the real object (a cache the model does not know separates states)
+
+    def __init__(self, transform_ops, nest=2, errors=True, rename=None, deferred=False):
+        self.deferred = deferred    # context-manager objects are obtained first and entered later
         self.transform_ops = transform_ops
         self.nest = nest
         self.errors = errors
@@ -124,6 +133,13 @@ class C13System:
             ops.append(["exit"])
             ops.append(["exit!"])
             ops.append(["exit!k"])
+        if self.deferred:
+            ops = [o for o in ops if o[0] != "enter"]
+            if len(st.ctx) + len(st.made) < self.nest:
+                ops.append(["make", ["current_transform"]])
+                ops.append(["make", ["named_transform", "a"]])
+            if st.made:
+                ops.append(["enter-made"])
         if self.rename:
             # delete_state is left out here: the property says nothing about deleting, and the pinned code looks the name up
             # unstripped there (delete_state("  n ") raises KeyError after save_state("  n ")) - recorded in DESIGN.md as an observation
@@ -237,6 +253,9 @@ ASSUMPTIONS = ["relative tolerance 1e-8 on probe-point images", "pivots are 3-tu
 TINY = [["transform.translate", [1.0, -2.0, 0.5]], ["transform.scale", [2.0, 0.5]]]
 
 
+# the same pivot set again after a restore / a block brought back another one; rotations and scalings about it
+PIVOT = [["transform.set_pivot", [[1.0, 1.0, 0.0]]], ["transform.rotate", [90.0, "z"]], ["transform.scale", [2.0]]]
+
 # state names with surrounding blanks / a line break / non-ASCII letters, and a name that only differs from another in case
 ODD_NAMES = {"a": "  fixture left\n", "b": "Ünïcode B "}
 
@@ -246,10 +265,14 @@ def systems(tier):
     if tier == "quick":
         return [("full-d3", C13System(FULL), 3, None), ("small-d4", C13System(SMALL), 4, None),
                 ("ctx-d6", C13System(TINY, errors=False), 6, None),
-                ("odd-names-d4", C13System(TINY, rename=ODD_NAMES), 4, None)]
+                ("odd-names-d4", C13System(TINY, rename=ODD_NAMES), 4, None),
+                ("deferred-ctx-d5", C13System(TINY, errors=False, deferred=True), 5, None),
+                ("pivot-d5", C13System(PIVOT, errors=False, nest=1), 5, None)]
     return [("full-d4", C13System(FULL), 4, None), ("small-d6", C13System(SMALL), 6, None),
             ("ctx-d7", C13System(TINY, errors=False), 7, None),
-            ("odd-names-d5", C13System(TINY, rename=ODD_NAMES), 5, None)]
+            ("odd-names-d5", C13System(TINY, rename=ODD_NAMES), 5, None),
+            ("deferred-ctx-d6", C13System(TINY, errors=False, deferred=True), 6, None),
+            ("pivot-d6", C13System(PIVOT, errors=False, nest=1), 6, None)]
 
 
 def run(tier, seed):
